@@ -195,8 +195,11 @@ Definition ps_set_ilen (i : nat) (v : Z) (l : list (Z * Z)) : list (Z * Z) :=
   | None => l
   end.
 
-(* returns (index of the inode, data_length of the new record, new state) *)
-Definition ps_link (isz : Z) (st : pstate) (ext dl : Z) : nat * Z * pstate :=
+(* returns (index of the inode, data_length of the new record, new state).
+   [fixed = true]: the code after commit 10cfb30 -- a file that ends beyond the end of the image: the Inode
+   AND every record linked to it get the bytes that are left (rec.set_data_length(inode.data_length));
+   [fixed = false]: the code before it, rec.set_data_length(new_end) = the ABSOLUTE end offset *)
+Definition ps_link_gen (fixed : bool) (isz : Z) (st : pstate) (ext dl : Z) : nat * Z * pstate :=
   let len_to_use := if dl =? 0 then 0 else dl in
   let extent_to_use := if dl =? 0 then 0 else ext in
   let found := if negb (len_to_use =? 0) then ps_assoc extent_to_use (s_e2i st) else None in
@@ -211,14 +214,18 @@ Definition ps_link (isz : Z) (st : pstate) (ext dl : Z) : nat * Z * pstate :=
               end in
   let new_end := extent_to_use * BS + len_to_use in
   if new_end >? isz then
-    (i, new_end,
-     mk_pstate (map (map (ps_set_dlen i new_end)) (s_dirs st)) (map (ps_set_dlen i new_end) (s_cur st))
-               (s_queue st) (ps_set_ilen i (isz - extent_to_use * BS) inodes1) e2i1 (s_seen st)
+    let left := isz - extent_to_use * BS in
+    let v := if fixed then left else new_end in
+    (i, v,
+     mk_pstate (map (map (ps_set_dlen i v)) (s_dirs st)) (map (ps_set_dlen i v) (s_cur st))
+               (s_queue st) (ps_set_ilen i left inodes1) e2i1 (s_seen st)
                (s_level st) (s_lastbyte st))
   else
     (i, dl,
      mk_pstate (s_dirs st) (s_cur st) (s_queue st) inodes1 e2i1 (s_seen st) (s_level st)
                (Z.max (s_lastbyte st) new_end)).
+
+Definition ps_link : Z -> pstate -> Z -> Z -> nat * Z * pstate := ps_link_gen true.
 
 (* ---- one record ------------------------------------------------------------------------------------ *)
 
